@@ -149,6 +149,7 @@ SIM_WORKLOAD("C15", "mempool", run_c15_mempool, 10)
 #define MAXS 12
 typedef struct su {
     int id, kind, pool, creator, freer; /* kind: 0 default, 1 attr stack size, 2 user stack */
+    int use_key;
     size_t size;
     char *ustack;
     ABT_thread th;
@@ -164,6 +165,7 @@ static struct {
     volatile int ext_done[2];
     int next;
     long ext_frees_of_user_stack_ults;
+    ABT_key key; /* some units store a value: their key table is one more pooled block */
 } Q;
 
 static void touch_down(su *u, volatile char *sp, int depth)
@@ -192,6 +194,8 @@ static void stack_fn(void *arg)
     if (u->kind == 2)
         SIM_CHECK(top - sz >= u->ustack && top <= u->ustack + u->size, "stack:outside-user-buffer", "ULT %d: stack [%p,%p) is not inside the user buffer [%p,%p)", u->id,
                   (void *)(top - sz), (void *)top, (void *)u->ustack, (void *)(u->ustack + u->size));
+    if (u->use_key)
+        ABT_OK(ABT_key_set(Q.key, u));
     u->lo = top - sz;
     u->hi = top;
     if (u->kind != 2)
@@ -288,6 +292,7 @@ static void run_c15_stacks(void)
     const char *g = getenv("ABT_STACK_OVERFLOW_CHECK");
     Q.guard = g && !strncmp(g, "mprotect", 8);
     static char ubuf[MAXS][300000];
+    ABT_OK(ABT_key_create(NULL, &Q.key));
     /* several rounds in one runtime, so that blocks travel through the local and global memory
      * pools; per run one kind of stack / one freeing actor may be favoured (swarm) */
     int rounds = plan_range(1, 4);
@@ -324,7 +329,8 @@ static void run_c15_stacks(void)
                     Q.ext_frees_of_user_stack_ults++;
             }
             u->depth = (int)plan_n(10);
-            sim_note("u%d:k%d/%zu/c%d/f%d ", i, u->kind, u->kind ? u->size : 0, u->creator, u->freer);
+            u->use_key = plan_n(3) == 0;
+            sim_note("u%d:k%d/%zu/c%d/f%d%s ", i, u->kind, u->kind ? u->size : 0, u->creator, u->freer, u->use_key ? "/key" : "");
         }
         int tid[2];
         for (int k = 0; k < Q.next; k++)
@@ -346,6 +352,7 @@ static void run_c15_stacks(void)
         for (int i = 0; i < Q.n; i++)
             SIM_CHECK(Q.U[i].freed && Q.U[i].done, "once:not-exactly-once", "ULT %d: done=%d freed=%d", i, Q.U[i].done, Q.U[i].freed);
     }
+    ABT_OK(ABT_key_free(&Q.key));
     sim_count("c15.ext_frees_of_user_stack_ults", (uint64_t)Q.ext_frees_of_user_stack_ults);
     wl_rt_stop(rt);
 }
